@@ -78,11 +78,14 @@ class ProxyHandler(RequestHandler):
         self.timeout = timeout
 
         # Create client for upstream requests
-        # Disable TOFU - proxy acts as transparent relay, not validator
+        # Disable TOFU - proxy acts as transparent relay, not validator.
+        # Bodies are kept as raw bytes so that they are relayed unchanged
+        # whatever charset the upstream declares.
         self._client = GeminiClient(
             timeout=timeout,
             verify_ssl=False,
             trust_on_first_use=False,
+            decode_text=False,
         )
 
         logger.debug(
